@@ -31,6 +31,7 @@ func init() {
 			{Name: "reverse", Run: runReverse, Solo: true},
 			{Name: "forin", Run: runForIn, Solo: true},
 			{Name: "instances", Run: runInstances, Solo: true},
+			{Name: "dynfunc", Run: runDynFunc, Solo: true},
 			{Name: "identical", Run: runIdentical, Solo: true},
 			{Name: "isolation", Run: runIsolation, Solo: true},
 			{Name: "copyshape", Run: runCopyShape, Solo: true},
@@ -651,6 +652,52 @@ func runCopyShape(r *engine.Run) {
 				r.Sample("history " + h.name + ": shape dump of " + sub.name + " vs the template")
 			}
 			r.Check(k, "template history: "+h.name+"; shape dump (with [[Extensible]]/sealed/frozen per object) of "+sub.name, "", obs)
+		}
+	}
+}
+
+// dynfunc: the own properties of dynamically created function objects (13.2, 15.3.2.1, 15.3.4.5,
+// 15.3.5): length values incl. bound functions (max(0, L - n)), prototype/constructor links.
+func runDynFunc(r *engine.Run) {
+	rows := []struct{ expr, want string }{
+		{`(function(){}).length`, "0"}, {`(function(a,b,c){}).length`, "3"},
+		{`new Function("a", "b", "return a").length`, "2"}, {`new Function("a,b", "c", "return a").length`, "3"}, {`Function().length`, "0"},
+		{`(function(a,b,c){}).bind(null).length`, "3"}, {`(function(a,b,c){}).bind(null, 1).length`, "2"},
+		{`(function(a,b,c){}).bind(null, 1, 2, 3).length`, "0"}, {`(function(a){}).bind(null, 1, 2).length`, "0"},
+		{`(function(){}).bind(null, 1).length`, "0"}, {`Math.max.bind(null, 1, 2, 3).length`, "0"}, {`Math.max.bind(null, 1).length`, "1"},
+		{`Array.bind(null, 1, 2, 3).length`, "0"}, {`Date.bind(null, 1, 2).length`, "5"}, {`String.prototype.concat.bind("s", "a", "b").length`, "0"},
+		{`(function(a,b){}).bind(null, 1).bind(null, 2, 3).length`, "0"}, {`(function(a,b,c,d){}).bind(null, 1).bind(null, 2).length`, "2"},
+		{`typeof (function(){}).bind(null)`, "function"},
+		{`Object.prototype.toString.call((function(){}).bind(null))`, "[object Function]"},
+		{`Object.getPrototypeOf((function(){}).bind(null)) === Function.prototype`, "true"},
+		{`(function(){ var f = function(){}; return f.prototype.constructor === f && Object.getPrototypeOf(f.prototype) === Object.prototype })()`, "true"},
+		{`(function(){ var f = new Function("return 1"); return f.prototype.constructor === f })()`, "true"},
+		{`(function(){ function F(a){ this.a = a } var B = F.bind(null, 7); var o = new B(); return (o instanceof F) + "|" + o.a + "|" + (o instanceof B) })()`, "true|7|true"},
+		{`(function(){ return arguments.length })(1, 2, 3)`, "3"}, {`(function(a){ return arguments.callee.length })()`, "1"},
+	}
+	for _, cfg := range configs {
+		vm := build(cfg)
+		for _, row := range rows {
+			k := key(cfg, row.expr)
+			if !r.MineKey(k) {
+				continue
+			}
+			res := ox.Run(vm, "String("+row.expr+")")
+			obs := "error"
+			switch {
+			case res.Panicked:
+				obs = fmt.Sprint("panic: ", res.PanicVal)
+			case res.Err != nil:
+				obs = "error: " + res.Err.Error()
+			default:
+				obs, _ = res.Value.ToString()
+			}
+			r.Eval(true)
+			r.Outcome(obs)
+			if r.WantSample() {
+				r.Sample(row.expr + " => " + obs)
+			}
+			r.Check(k, row.expr, row.want, obs)
 		}
 	}
 }
